@@ -1005,7 +1005,7 @@ func (e *ethRun) monitorTx(op *ethOp, code uint32, pre, post *ethView) {
 		if pre.Store[1][op.Name] != nil {
 			dup("after-success", "the passed store already holds this external transaction")
 		}
-		if pre.Store[2][op.Name] != nil && op.Ext.Kind != 1 {
+		if pre.Store[2][op.Name] != nil && op.Ext.Kind != 1 && op.Ext.Kind != 3 {
 			e.hit("duplicate-submission-accepted-after-failure", fmt.Sprintf("%s: the failed store already holds this external transaction", where))
 		}
 		if tPost == nil {
@@ -1267,12 +1267,55 @@ func (e *ethRun) deliver(op *ethOp) (code uint32, err error) {
 	return tr.Code, nil
 }
 
-// ethScenario is a scripted history: the witnesses of the Lean counterexamples replayed on the
-// implementation (OLP/Props/C15.lean: mint_goes_to_named_locker_not_submitter,
-// erc20_lock_resubmission_mints_twice, lying_locker_can_double_count_the_supply).
+// ethScenario is a scripted history.  Cases -2, -3, -4 were the witnesses of the two defects this
+// slice found (KF-C15-1 mint credited the report's Locker, KF-C15-2 runERC20Lock without existence
+// check); both are repaired in /repo (0a509b2, 9de5f06) and the scenarios are now REGRESSION
+// scenarios: they must end in the stated harmless outcome with no monitor hit (OLP/Props/C15.lean:
+// lying_report_is_harmless, lying_report_cannot_touch_the_supply, erc20_lock_resubmission_is_refused).
+// Case -5 was the witness of a third, smaller gap (runERC20Reddem ignored the failed store, repaired
+// by efdfa81) and is a regression scenario too (erc20_redeem_after_failed_redeem_is_refused).
+// A Manual scenario would run only when selected with -only (none at present).
 type ethScenario struct {
 	Name   string
 	Blocks [][]func(e *ethRun, v *ethView) *ethOp
+	Expect func(e *ethRun, v *ethView) string // "" = the expected outcome was observed
+	Manual bool
+}
+
+// buildDualRedeem: one Ethereum transaction whose call data holds a LockRedeem redeem(uint256) call
+// followed by a LockRedeemERC redeem(uint256,address) call; the repo's two redeem parsers (which
+// search the raw bytes for their selector and do not decode the transaction) both accept it.
+func buildDualRedeem(seed uint64, nonce uint64, amount *big.Int) (*extTx, *extTx) {
+	ethLoadABIs()
+	d1, err := ethABIs.lr.Pack("redeem", amount)
+	if err != nil {
+		panic(err)
+	}
+	d2, err := ethABIs.lrerc.Pack("redeem", amount, ethTokenAddr)
+	if err != nil {
+		panic(err)
+	}
+	tx := types.NewTransaction(nonce, ethContractAddr, big.NewInt(10), 100000, big.NewInt(18000000000), append(d1, d2...))
+	signed, err := types.SignTx(tx, types.NewEIP155Signer(big.NewInt(1)), ethUserKey(seed, int(nonce%3)))
+	if err != nil {
+		panic(err)
+	}
+	raw, err := rlp.EncodeToBytes(signed)
+	if err != nil {
+		panic(err)
+	}
+	a := &extTx{Kind: 2, Raw: raw, Amount: new(big.Int).Set(amount), NameB: common.BytesToHash(raw)}
+	b := &extTx{Kind: 4, Raw: raw, Amount: new(big.Int).Set(amount), NameB: common.BytesToHash(raw)}
+	return a, b
+}
+
+func scDualRedeem(acct int, amount int64) func(e *ethRun, v *ethView) *ethOp {
+	return func(e *ethRun, v *ethView) *ethOp {
+		e.nonce++
+		a, b := buildDualRedeem(e.w.P.Seed, e.nonce, big.NewInt(amount))
+		e.exts = append(e.exts, a, b)
+		return e.submitOp(a, e.w.Accts[acct], "scripted")
+	}
 }
 
 func scSubmit(kind int, acct int, amount int64) func(e *ethRun, v *ethView) *ethOp {
@@ -1314,12 +1357,51 @@ func ethScenarios() []*ethScenario {
 	yes3 := func(ext, lastLocker int) []scOp {
 		return []scOp{scReport(ext, 0, true, 0), scReport(ext, 1, true, 0), scReport(ext, 2, true, lastLocker)}
 	}
+	no3 := func(ext int) []scOp {
+		return []scOp{scReport(ext, 0, false, 0), scReport(ext, 1, false, 0), scReport(ext, 2, false, 0)}
+	}
+	// expected final wrapped balances: account 0, account 1, supply counter
+	want := func(cur int, a0, a1, sup int64) func(e *ethRun, v *ethView) string {
+		return func(e *ethRun, v *ethView) string {
+			g0, g1, gs := v.bal(e.w.Accts[0].Addr, cur), v.bal(e.w.Accts[1].Addr, cur), v.bal(e.supply, cur)
+			if g0.Cmp(big.NewInt(a0)) != 0 || g1.Cmp(big.NewInt(a1)) != 0 || gs.Cmp(big.NewInt(sup)) != 0 {
+				return fmt.Sprintf("currency %s: account0 %s (want %d), account1 %s (want %d), supply counter %s (want %d)", ethCurNames[cur], g0, a0, g1, a1, gs, sup)
+			}
+			return ""
+		}
+	}
 	return []*ethScenario{
-		{Name: "honest-lock-redeem-refund", Blocks: [][]scOp{{scSubmit(1, 0, 40)}, yes3(0, 0), {scSubmit(2, 0, 25)},
-			{scReport(1, 0, false, 0), scReport(1, 1, false, 0), scReport(1, 2, false, 0)}, {}, {}}},
-		{Name: "S21-crossing-report-names-another-account", Blocks: [][]scOp{{scSubmit(1, 0, 40)}, yes3(0, 1), {}}},
-		{Name: "S21-crossing-report-names-the-supply-address", Blocks: [][]scOp{{scSubmit(1, 0, 40)}, yes3(0, -1), {}}},
-		{Name: "erc20-lock-resubmitted-after-completion", Blocks: [][]scOp{{scSubmit(3, 0, 30)}, yes3(0, 0), {scResubmit(0, 0)}, yes3(0, 0), {}}},
+		{Name: "honest-lock-redeem-refund", Blocks: [][]scOp{{scSubmit(1, 0, 40)}, yes3(0, 0), {scSubmit(2, 0, 25)}, no3(1), {}, {}},
+			Expect: want(0, 40, 0, 40)},
+		{Name: "regression-0a509b2-crossing-report-names-another-account", Blocks: [][]scOp{{scSubmit(1, 0, 40)}, yes3(0, 1), {}},
+			Expect: want(0, 40, 0, 40)},
+		{Name: "regression-0a509b2-crossing-report-names-the-supply-address", Blocks: [][]scOp{{scSubmit(1, 0, 40)}, yes3(0, -1), {}},
+			Expect: want(0, 40, 0, 40)},
+		{Name: "regression-9de5f06-erc20-lock-resubmitted-after-completion", Blocks: [][]scOp{{scSubmit(3, 0, 30)}, yes3(0, 0), {scResubmit(0, 0)}, yes3(0, 0), {}},
+			Expect: func(e *ethRun, v *ethView) string {
+				if s := want(1, 30, 0, 30)(e, v); s != "" {
+					return s
+				}
+				if v.Store[0][e.exts[0].Name()] != nil || v.Store[1][e.exts[0].Name()] == nil {
+					return "the resubmitted ERC20 lock has an ongoing tracker / no passed record"
+				}
+				return ""
+			}},
+		{Name: "regression-efdfa81-erc20-redeem-after-failed-eth-redeem-same-payload", Blocks: [][]scOp{
+			{scSubmit(1, 0, 40), scSubmit(3, 0, 30)}, append(yes3(0, 0), yes3(1, 0)...), {scDualRedeem(0, 5)}, no3(2), {}, {scResubmit(3, 0)}, {}},
+			Expect: func(e *ethRun, v *ethView) string {
+				if s := want(0, 40, 0, 40)(e, v); s != "" {
+					return s // the ETH redeem of 5 was refunded
+				}
+				if s := want(1, 30, 0, 30)(e, v); s != "" {
+					return s // no token was debited by the refused ERC20 redeem
+				}
+				n := e.exts[2].Name()
+				if v.Store[0][n] != nil || v.Store[1][n] != nil || v.Store[2][n] == nil {
+					return "the payload of the failed ETH redeem is not in the failed store only"
+				}
+				return ""
+			}},
 	}
 }
 
@@ -1489,6 +1571,18 @@ func runEthHistory(opt EthOptions, c int, r *rng.R, res *Result, scn *ethScenari
 		}
 		A.IndexBlock(b, br)
 		sim.Absorb(b, br)
+	}
+	if scn != nil && scn.Expect != nil && !e.stop {
+		e.commit = A.DumpMap()
+		v, err := e.view()
+		if err != nil {
+			return nil, false, err
+		}
+		if msg := scn.Expect(e, v); msg != "" {
+			e.hit("regression-scenario-outcome", scn.Name+": "+msg)
+		} else {
+			res.Counters["scenario:"+scn.Name+":expected-outcome"]++
+		}
 	}
 	// correspondence
 	model, err := kv.RunDriver(opt.Driver, "ethtrk", e.ops)
@@ -1678,7 +1772,7 @@ func RunEthTrk(opt EthOptions) (*Result, error) {
 	// the scripted scenarios (cases -1, -2, …) run first: the Lean counterexamples on the implementation
 	for i, scn := range ethScenarios() {
 		c := -1 - i
-		if opt.Only != -1000 && opt.Only != c {
+		if (opt.Only != -1000 && opt.Only != c) || (scn.Manual && opt.Only != c) {
 			continue
 		}
 		before := map[string]int{}
